@@ -77,7 +77,8 @@ PROPS["C10"] = {
 
 PROPS["C11"] = {
     "title": "Latency percentiles are ordered and within a bounded rank error",
-    "units": [{"name": "percentiles", "pkg": "lib", "run": "^TestC11", "scale_thorough": 30},
+    "units": [{"name": "percentiles", "pkg": "lib", "run": "^TestC11(Percentiles|PercentilesLarge)$", "scale_thorough": 30},
+              {"name": "huge", "pkg": "lib", "run": "^TestC11PercentilesHuge$", "thorough_only": True, "shards_thorough": 4, "timeout_thorough": 1500},
               {"name": "reportcmd", "pkg": "main", "run": "^TestC11", "shards_quick": 2, "shards_thorough": 8}],
     "rule": "rapid draws latency multisets of n in {1..20} or log-uniform up to 5000 (thorough: up to 1e5) from eight "
             "families (uniform, log-normal, exponential, constant, few-valued, bimodal with gaps up to 1e9x, heavy tail, "
@@ -91,7 +92,7 @@ PROPS["C11"] = {
     "level_text": "generated-input search over distributions and arrival orders against an exact rank computation on "
                   "the sorted sample; cannot prove absence",
     "level_note": "the rank convention is the one most favourable to the estimator among the usual percentile "
-                  "definitions; the listed known finding p50-resolution suppresses only median errors up to 1+0.032*n",
+                  "definitions; the listed known finding tdigest-resolution suppresses only rank errors up to 1 + 3.5 t-digest centroid widths, W(q) = pi/100*sqrt(q(1-q))*n",
     "assumptions": [],
 }
 
